@@ -642,11 +642,71 @@ const EDGE_STATEMENTS: [&str; 24] = [
 ];
 
 impl C03 {
+    /// A program that stops a few opcodes short of the code pool's limit (sized through the probe), then direct
+    /// statements of 1..60 opcodes that do or do not fit behind it, then more lines and commands.
+    fn nearly_full_case(&self, rng: &mut Rng, ctx: &mut Ctx) {
+        let mut s = Session::new();
+        let mut script: Vec<String> = vec![];
+        s.drain(8);
+        let short_by = rng.range(0, 70) as usize;
+        let target = 65_503usize.saturating_sub(short_by);
+        let big = |terms: usize, n: usize| -> String { format!("{} A={}", n, vec!["1"; terms.max(1)].join("+")) };
+        let mut next_line = 1usize;
+        let mut size = 0usize;
+        for _round in 0..400 {
+            let room = target.saturating_sub(size);
+            if room < 4 {
+                break;
+            }
+            // a line `A=1+1+..+1` with t terms costs about 2t opcodes
+            let terms = (room / 2).min(240).saturating_sub(if room < 480 { 1 } else { 0 }).max(1);
+            let l = big(terms, next_line);
+            next_line += 1;
+            s.enter(&l);
+            s.drain(8);
+            if room < 2000 || next_line % 40 == 0 {
+                // measure: a direct statement compiles the program
+                s.enter("Z=0");
+                s.drain(400);
+                let pr = s.rt.verif_probe();
+                if pr.direct_address == 0 || pr.direct_address > 65_600 {
+                    break;
+                }
+                size = pr.direct_address;
+            } else {
+                size += terms * 2;
+            }
+        }
+        s.enter("Z=0");
+        s.drain(400);
+        let pr = s.rt.verif_probe();
+        script.push(format!("<program of {} lines `n A=1+1+...`, {} opcodes; the pool's full mark is 65503>", next_line - 1, pr.direct_address));
+        ctx.max("nearly_full_program_opcodes", pr.direct_address as u64);
+        for _ in 0..rng.range(2, 6) {
+            let c = match rng.usize(8) {
+                0..=2 => format!("PRINT {}", vec!["1"; 1 + rng.usize(30)].join(";")),
+                3 => format!("{} REM", 60_000 + rng.usize(9)),
+                4 => format!("{} A=1+1", 60_000 + rng.usize(9)),
+                5 => rng.pick(&["RUN", "GOTO 1", "LIST 1-1", "CLEAR", "CONT"]).to_string(),
+                6 => format!("{}", 60_000 + rng.usize(9)),
+                _ => rng.pick(&["A=1:PRINT A", "PRINT 1", "FOR I=1 TO 2:NEXT", "NEW"]).to_string(),
+            };
+            guard!(script, format!("enter {:?}", c), s.enter(&c));
+            for _ in 0..400 {
+                if guard!(script, format!("execute {}", QBIG), s.step_q(QBIG)) == Some(Stop::Stopped) {
+                    break;
+                }
+            }
+        }
+        ctx.count("nearly_full_program_sessions");
+        finish_session(&mut s, &mut script, ctx);
+    }
+
     /// The value stack is filled to within a few cells of its 64K limit with abandoned FOR loops and
     /// GOSUBs, then one ordinary statement runs there; whatever happens must be a BASIC error.
     fn edge_case(&self, rng: &mut Rng, ctx: &mut Ctx) {
         if rng.chance(1, 12) {
-            return self.oversized_case(rng, ctx);
+            return if rng.coin() { self.oversized_case(rng, ctx) } else { self.nearly_full_case(rng, ctx) };
         }
         if rng.chance(1, 4) {
             return self.big_temp_case(rng, ctx);
@@ -987,6 +1047,100 @@ impl C18 {
         }
     }
 
+
+    /// Waits: a program that asks for keys (INKEY$) and replies (INPUT) inside loops and subroutines; at a random
+    /// subset of the waits a break arrives instead of the answer, a direct statement may be typed, and CONT puts
+    /// the program back into the same wait. The value stack must be exactly as deep as it was when the wait began,
+    /// and when the program has finished nothing may be left on it.
+    fn waits_case(&self, rng: &mut Rng, ctx: &mut Ctx) {
+        let n = rng.range(3, 40);
+        let templates: [Vec<String>; 6] = [
+            vec![format!("10 FOR I=1 TO {}", n), "20 A$=INKEY$".into(), "30 S=S+LEN(A$)".into(), "40 NEXT".into(), "50 PRINT \"DONE\";S".into()],
+            vec![format!("10 I=I+1:GOSUB 100:IF I<{} THEN 10", n), "20 PRINT \"DONE\";S:END".into(), "100 A$=INKEY$:S=S+LEN(A$):RETURN".into()],
+            vec![format!("10 FOR I=1 TO {}", n), "20 INPUT \"Q\";A,B$".into(), "30 S=S+A+LEN(B$)-1".into(), "40 NEXT".into(), "50 PRINT \"DONE\";S".into()],
+            vec![format!("10 FOR I=1 TO {}:FOR J=1 TO 2", n), "20 IF INKEY$<>\"\" THEN S=S+.5".into(), "30 NEXT J,I".into(), "40 PRINT \"DONE\";S".into()],
+            vec![format!("10 WHILE I<{}:I=I+1:A$=LEFT$(A$+INKEY$,9):S=S+1:WEND", n), "20 PRINT \"DONE\";S".into()],
+            vec![format!("10 FOR I=1 TO {}:GOSUB 100:NEXT:PRINT \"DONE\";S:END", n), "100 FOR K=1 TO 3:INPUT A:IF A=1 THEN S=S+1:RETURN".into(), "110 NEXT:RETURN".into()],
+        ];
+        let t = rng.usize(templates.len());
+        let lines = &templates[t];
+        let want_done = format!("DONE {} ", n);
+        let mut script: Vec<String> = lines.clone();
+        script.push("RUN".into());
+        let mut s = Session::new();
+        s.drain(8);
+        for l in lines {
+            s.command(l, 16);
+        }
+        let mark = s.mark();
+        s.enter("RUN");
+        let mut waits = 0u64;
+        let mut broken = 0u64;
+        let mut finished = false;
+        for _ in 0..2000 {
+            let st = s.drain(20_000);
+            let is_key = matches!(st, Stop::Inkey);
+            match st {
+                Stop::Stopped => {
+                    finished = true;
+                    break;
+                }
+                Stop::Inkey | Stop::Input(..) => {
+                    waits += 1;
+                    if rng.coin() {
+                        let d0 = s.rt.verif_probe().stack.len();
+                        let times = 1 + rng.usize(2);
+                        for _ in 0..times {
+                            s.interrupt();
+                            script.push("<break at the wait>".into());
+                            if s.drain(64) != Stop::Stopped {
+                                ctx.violation("no-stop", "waits:interrupt-no-stop", "a break at a wait did not stop the program", &script.join("\n"));
+                                return;
+                            }
+                            if rng.coin() {
+                                let d = *rng.pick(&["PRINT 1;", "Z=Z+1", "PRINT S"]);
+                                script.push(d.into());
+                                s.command(d, 64);
+                            }
+                            script.push("CONT".into());
+                            s.enter("CONT");
+                            let again = s.drain(64);
+                            let same = if is_key { matches!(again, Stop::Inkey) } else { matches!(again, Stop::Input(..)) };
+                            let d1 = s.rt.verif_probe().stack.len();
+                            broken += 1;
+                            if !same || d1 != d0 {
+                                ctx.violation(
+                                    "wait-not-restored",
+                                    &format!("waits:cont:{}", if is_key { "inkey" } else { "input" }),
+                                    &format!("after break + CONT at a wait the program is at {:?} with {} cells on the value stack; before the break it waited with {} cells", again, d1, d0),
+                                    &script.join("\n"),
+                                );
+                                return;
+                            }
+                        }
+                    }
+                    let reply = if is_key { "z" } else if t == 2 { "1,x" } else { "1" };
+                    script.push(format!("<answer {:?}>", reply));
+                    s.enter(reply);
+                }
+                _ => break,
+            }
+        }
+        mon::journal(&script.join("\n"));
+        let out = transcript(s.events_since(mark), Norm::STD);
+        let pr = s.rt.verif_probe();
+        ctx.eval(&script.join("\n"), broken > 0);
+        ctx.add("waits_seen", waits);
+        ctx.add("waits_broken_and_continued", broken);
+        if !finished || !out.contains(&want_done) || !pr.stack.is_empty() {
+            ctx.violation(
+                "waits-residue",
+                "waits:end",
+                &format!("finished={} output contains {:?}: {}; value stack at the end {:?}; transcript tail {:?}", finished, want_done, out.contains(&want_done), pr.stack, out.chars().rev().take(200).collect::<String>().chars().rev().collect::<String>()),
+                &script.join("\n"),
+            );
+        }
+    }
 
     /// Stack-shape (conservation) monitor: a generated program is looped and marked with `Z9=Z9+1`
     /// statements; the reference interpreter says how many FOR and GOSUB frames are open at each
@@ -1338,6 +1492,8 @@ impl Prop for C18 {
             self.slots_case(ctx)
         } else if i % 5 == 0 {
             self.zeroing_case(rng, ctx)
+        } else if i % 5 == 1 {
+            self.waits_case(rng, ctx)
         } else {
             self.shape_case(rng, ctx)
         }
